@@ -23,6 +23,12 @@ Theorem eq_interchangeable_partial : forall c a b,
 Proof. exact eq_interchangeable_partial_proof. Qed.
 Print Assumptions eq_interchangeable_partial.
 
+(* with if_missing in _UseDepDefaultContainment's identity (the state of /repo since 9f837da) the class
+   excluded by eq_implies_same_match is empty: equal restrictions always match alike *)
+Theorem known_match_empty_when_keyed : forall c, udc_keyed c = true -> forall a b, known c false a b = false.
+Proof. exact known_match_empty_when_keyed_proof. Qed.
+Print Assumptions known_match_empty_when_keyed.
+
 (* a restriction-keyed cache returns, for a key found by ==, the value the memoised query has for THAT key *)
 Theorem cache_sound_partial : forall c (V : Type) (compute : restr -> V) m k v,
   respects_matching V compute -> filled_by V compute m ->
